@@ -5,7 +5,7 @@
 use crate::debug_tree::parse_debug;
 use crate::lexer::tok_error;
 use crate::util::*;
-use a2lfile::A2lError;
+use a2lfile::{A2lError, A2lObjectName};
 use serde_json::{json, Value};
 
 fn line_of(text: &str) -> i64 {
@@ -32,6 +32,56 @@ pub fn err_class(e: &A2lError) -> Value {
     }
 }
 
+/// every IF_DATA block of the model, by site (the eleven places where the grammar allows IF_DATA)
+fn ifdata_sites(a2l: &a2lfile::A2lFile) -> Vec<Value> {
+    let mut out = vec![];
+    let mut add = |site: &str, owner: String, list: &Vec<a2lfile::IfData>| {
+        for (i, d) in list.iter().enumerate() {
+            let items = match &d.ifdata_items {
+                Some(it) => parse_debug(&format!("{it:?}")).unwrap_or_else(|e| json!({"_parse_error": e})),
+                None => Value::Null,
+            };
+            out.push(json!({"site": site, "owner": owner, "idx": i, "valid": d.ifdata_valid, "items": items}));
+        }
+    };
+    for (mi, m) in a2l.project.module.iter().enumerate() {
+        add("MODULE", format!("{mi}"), &m.if_data);
+        if let Some(mp) = &m.mod_par {
+            for (i, x) in mp.memory_layout.iter().enumerate() {
+                add("MEMORY_LAYOUT", format!("{mi}/{i}"), &x.if_data);
+            }
+            for x in &mp.memory_segment {
+                add("MEMORY_SEGMENT", format!("{mi}/{}", x.get_name()), &x.if_data);
+            }
+        }
+        for x in &m.axis_pts {
+            add("AXIS_PTS", format!("{mi}/{}", x.get_name()), &x.if_data);
+        }
+        for x in &m.blob {
+            add("BLOB", format!("{mi}/{}", x.get_name()), &x.if_data);
+        }
+        for x in &m.characteristic {
+            add("CHARACTERISTIC", format!("{mi}/{}", x.get_name()), &x.if_data);
+        }
+        for x in &m.frame {
+            add("FRAME", format!("{mi}/{}", x.get_name()), &x.if_data);
+        }
+        for x in &m.function {
+            add("FUNCTION", format!("{mi}/{}", x.get_name()), &x.if_data);
+        }
+        for x in &m.group {
+            add("GROUP", format!("{mi}/{}", x.get_name()), &x.if_data);
+        }
+        for x in &m.instance {
+            add("INSTANCE", format!("{mi}/{}", x.get_name()), &x.if_data);
+        }
+        for x in &m.measurement {
+            add("MEASUREMENT", format!("{mi}/{}", x.get_name()), &x.if_data);
+        }
+    }
+    out
+}
+
 fn run_case(case: &Value) -> Value {
     let text = case["text"].as_str().unwrap_or("");
     let strict = case["strict"].as_bool().unwrap_or(false);
@@ -46,6 +96,18 @@ fn run_case(case: &Value) -> Value {
                 out["tok_error"] = json!([c, l]);
             }
             Err(p) => out["tok_panic"] = json!(p),
+        }
+    }
+    if want.contains(&"a2mltree") {
+        // the A2ML hook: type tree of a definition given as text
+        for (key, field) in [("a2ml", "a2mltree_builtin"), ("a2ml_infile", "a2mltree_infile")] {
+            if let Some(t) = case[key].as_str() {
+                out[field] = match guarded(|| a2lfile::verif::parse_a2ml(t)) {
+                    Ok(Ok(dbg)) => json!({"ok": true, "tree": parse_debug(&dbg).unwrap_or_else(|e| json!({"_parse_error": e}))}),
+                    Ok(Err(e)) => json!({"ok": false, "error": e}),
+                    Err(p) => json!({"panic": p}),
+                };
+            }
         }
     }
     if case["fragment"].as_bool().unwrap_or(false) {
@@ -70,6 +132,22 @@ fn run_case(case: &Value) -> Value {
         Ok(Ok((a2l, log))) => {
             out["ok"] = json!(true);
             out["diags"] = Value::Array(log.iter().map(err_class).collect());
+            if want.contains(&"ifdata") {
+                out["ifdata"] = Value::Array(ifdata_sites(&a2l));
+            }
+            if want.contains(&"cleanup") {
+                let mut c = a2l.clone();
+                match guarded(move || {
+                    c.ifdata_cleanup();
+                    (ifdata_sites(&c), c.write_to_string())
+                }) {
+                    Ok((sites, text)) => {
+                        out["after_cleanup"] = Value::Array(sites);
+                        out["written_after_cleanup"] = json!(text);
+                    }
+                    Err(p) => out["cleanup_panic"] = json!(p),
+                }
+            }
             if want.contains(&"tree") {
                 out["tree"] = parse_debug(&format!("{a2l:#?}")).unwrap_or_else(|e| json!({"_parse_error": e}));
             }
@@ -81,7 +159,7 @@ fn run_case(case: &Value) -> Value {
                             let mut cur = t1.clone();
                             let mut cyc = vec![];
                             for _ in 0..3 {
-                                match guarded(|| a2lfile::load_from_string(&cur, a2ml.clone(), false)) {
+                                match guarded(|| a2lfile::load_from_string(&cur, a2ml.clone(), strict)) {
                                     Ok(Ok((re, relog))) => {
                                         let eq = re == a2l;
                                         let t = re.write_to_string();
